@@ -305,8 +305,17 @@ func exec(planJSON []byte, run *core.Run) {
 	// deliver presents (ct, aad) to the opener; want != nil means the model says it must open to want.
 	deliver := func(what string, ct, aad, want []byte, mustOpen bool) bool {
 		run.Tick(1)
-		pt, err := opener.Open(ct, aad)
+		// the record sits in a receive buffer of the transport: Open may not change it (the same
+		// bytes are retransmitted later), and the buffer is reused as soon as Open has returned
+		rbuf, abuf := append([]byte{}, ct...), append([]byte{}, aad...)
+		pt, err := opener.Open(rbuf, abuf)
 		run.Event("receiver", "open:"+what, ct, err)
+		if !bytes.Equal(rbuf, ct) || !bytes.Equal(abuf, aad) {
+			run.Violate("hpke.Opener.Open", "modifies-its-input", "%s (err=%v): the ciphertext / aad buffer handed to Open changed", what, err)
+			return false
+		}
+		core.Recycle(rbuf)
+		core.Recycle(abuf)
 		if mustOpen {
 			if err != nil {
 				run.Violate("hpke.Opener.Open", "rejects-in-order-record", "%s: the record for sequence number %x did not open: %v", what, ir, err)
@@ -563,6 +572,25 @@ func exec(planJSON []byte, run *core.Run) {
 		}
 		if pending > 0 {
 			run.Probe("heal-retransmitted")
+		}
+		// history: the receiver is asked for a context for the same encapsulated key once more
+		// (a restarted worker, a second reader). It starts at sequence number zero and shares
+		// nothing with the first opener.
+		if len(recs) > 0 && p.Seed%2 == 0 {
+			op2, err := rcv.Setup(append([]byte{}, enc...))
+			if err != nil {
+				run.Violate("hpke.Receiver.Setup", "error-on-second-setup", "%v", err)
+				return
+			}
+			run.Fault("history:second-opener-from-the-same-receiver")
+			pt, err := op2.Open(append([]byte{}, recs[0].ct...), append([]byte{}, recs[0].aad...))
+			if err != nil || !bytes.Equal(pt, recs[0].pt) {
+				run.Violate("hpke.Receiver.Setup", "second-opener-not-fresh", "a second opener set up from the same receiver and encapsulated key does not open the first record: err=%v", err)
+				return
+			}
+			if !checkState("a second opener was set up and used") {
+				return
+			}
 		}
 	}
 }
